@@ -122,11 +122,11 @@ PROPS = {
             'SenderLink::send_payload calling consume(1) exactly once per delivery before queuing frames is not under contract (select! in get_delivery_tag_or_detached)',
             'TryConsume::try_consume (transaction feature) duplicates consume_link_credit and is not under contract']),
     'C09': dict(
-        units=['LINKFLOW', 'SESSION'], kani=[], level='proof', title='Receiver link credit',
+        units=['LINKFLOW', 'SESSION', 'LINK'], kani=[], level='proof', title='Receiver link credit',
         lemmas={'LINKFLOW': ['lemma_c09_threshold_reached_within_credit']},
         assumptions=[ASYNC,
             'parking_lot::RwLock and Arc<AtomicU32> erased: disposal concurrent with recv from another task is not modelled',
-            'ReceiverLink::on_complete_transfer calling consume(1) before building the delivery, ReceiverInner::update_credit_if_auto and set_credit are not under contract yet',
+            'ReceiverInner::set_credit / drain are not under contract',
             'the overrun error being turned into a detach frame by the link/engine is not verified']),
     'C12': dict(
         units=['CONN', 'CONNENG'],
